@@ -103,6 +103,13 @@ fn sorted_recs(v: Vec<Rec>) -> String {
     format!("[{}]", s.join(","))
 }
 
+async fn get_key_committed(m: &StorageManager<FaultDb>, k: &Key) -> Result<DbRecord, StorageError> {
+    match k {
+        Key::Azks => m.get_committed::<Azks>(&DEFAULT_AZKS_KEY).await,
+        Key::Node(l) => m.get_committed::<TreeNodeWithPreviousValue>(&NodeKey(nlabel(*l))).await,
+        Key::Val(u, e) => m.get_committed::<ValueState>(&ValueStateKey(user(*u).0, *e)).await,
+    }
+}
 async fn get_key(m: &StorageManager<FaultDb>, k: &Key) -> Result<DbRecord, StorageError> {
     match k {
         Key::Azks => m.get::<Azks>(&DEFAULT_AZKS_KEY).await,
@@ -296,12 +303,22 @@ pub async fn one_sequence(o: &mut Out, r: &mut Rng, regime: u32, nops: usize, wf
                 let k = if scripted.is_some() && forced_key.is_some() { forced_key.clone().unwrap() } else { gen_key(r) };
                 // with an unpredictable cache (regime 2) it is unknown whether the read reaches the database
                 let fail = fail && regime < 2;
+                // one read in five is a read of what is committed (the open transaction's log is not consulted); its truth is
+                // the database's own record
+                let committed = r.chance(1, 5);
                 db.fail_next.store(fail, Ordering::SeqCst);
-                let res = get_key(&mgr, &k).await;
+                let res = if committed { get_key_committed(&mgr, &k).await } else { get_key(&mgr, &k).await };
                 db.fail_next.store(false, Ordering::SeqCst);
                 let a = match &res { Ok(rec) => fmt_rec(&from_db(rec)), Err(e) => err(e).into() };
-                let t = match get_key(&twin.st, &k).await { Ok(rec) => fmt_rec(&from_db(&rec)), Err(e) => err(&e).into() };
-                (format!("get {} {}", fmt_key(&k), fail as u8), a, Some(t))
+                if committed {
+                    // (read from the wrapped database itself: not a database operation of the call under test)
+                    let direct = StorageManager::new_no_cache(FaultDb { inner: db.inner.clone(), ..FaultDb::new() });
+                    let t = match get_key(&direct, &k).await { Ok(rec) => fmt_rec(&from_db(&rec)), Err(e) => err(&e).into() };
+                    (format!("getc {} {}", fmt_key(&k), fail as u8), a, Some(t))
+                } else {
+                    let t = match get_key(&twin.st, &k).await { Ok(rec) => fmt_rec(&from_db(&rec)), Err(e) => err(&e).into() };
+                    (format!("get {} {}", fmt_key(&k), fail as u8), a, Some(t))
+                }
             }
             11 => {
                 // batch get of keys of one type
